@@ -28,6 +28,11 @@ fn main() {
                 println!("{}", p.id);
             }
         }
+        "describe" => {
+            let v: Vec<serde_json::Value> =
+                props::all().iter().map(|p| serde_json::json!({"id": p.id, "rule": p.rule, "note": p.note})).collect();
+            println!("{}", serde_json::to_string_pretty(&v).unwrap());
+        }
         "--worker" => {
             engine::workers::worker_main();
         }
